@@ -67,7 +67,10 @@ fn pin_case(text: &str) {
                 }
                 format!("ok {}", if hs.slice().is_empty() { "e".to_string() } else { h::hex(hs.slice()) })
             }
-            None => "ok none".to_string(),
+            None => {
+                h::emit_oracle_fail("verify-header-given-but-no-checksum-is-checked", &req);
+                "ok none".to_string()
+            }
         },
         Ok(Ok(_)) => "other".to_string(),
         Ok(Err(_)) => "refused".to_string(),
@@ -178,6 +181,119 @@ fn compress_case(a: &CArgs) {
                 o.input.is_none() as u8,
                 if a.buffered.is_some() { o.num_chunk_buffers.to_string() } else { "-".to_string() },
                 o.force_create as u8
+            )
+        }
+        Ok(Ok(_)) => "other".to_string(),
+        Ok(Err(_)) => "refused".to_string(),
+        Err(_) => "panic".to_string(),
+    };
+    h::emit_case(&req, &ans);
+}
+
+struct ClArgs {
+    pin: Option<String>,
+    seeds: Vec<String>,
+    retries: Option<String>,
+    delay: Option<String>,
+    timeout: Option<String>,
+    buffered: Option<String>,
+    seed_output: bool,
+    force: bool,
+    verify_output: bool,
+    archive: String,
+    kind: &'static str,
+    output: String,
+}
+
+fn clone_case(a: &ClArgs) {
+    let req = format!(
+        "opts-clone {} {} {} {} {} {} {} {} {} {} {} {}",
+        opt(&a.pin),
+        if a.seeds.is_empty() { "-".to_string() } else { h::join(&a.seeds.iter().map(|s| hx(s)).collect::<Vec<_>>(), ",") },
+        opt(&a.retries),
+        opt(&a.delay),
+        opt(&a.timeout),
+        opt(&a.buffered),
+        a.seed_output as u8,
+        a.force as u8,
+        a.verify_output as u8,
+        hx(&a.archive),
+        a.kind,
+        hx(&a.output)
+    );
+    let mut args: Vec<String> = vec!["bita".into(), "clone".into()];
+    if let Some(p) = &a.pin {
+        args.push("--verify-header".into());
+        args.push(p.clone());
+    }
+    for s in &a.seeds {
+        args.push("--seed".into());
+        args.push(s.clone());
+    }
+    for (k, v) in [("--http-retry-count", &a.retries), ("--http-retry-delay", &a.delay), ("--http-timeout", &a.timeout), ("--buffered-chunks", &a.buffered)] {
+        if let Some(v) = v {
+            args.push(k.to_string());
+            args.push(v.clone());
+        }
+    }
+    if a.seed_output {
+        args.push("--seed-output".into());
+    }
+    if a.force {
+        args.push("--force-create".into());
+    }
+    if a.verify_output {
+        args.push("--verify-output".into());
+    }
+    args.push(a.archive.clone());
+    args.push(a.output.clone());
+    let show = |o: Option<u64>| o.map(|v| v.to_string()).unwrap_or("-".to_string());
+    let ans = match h::catch(|| cli::parse_opts(args.clone())) {
+        Ok(Ok((cli::CommandOpts::Clone(o), _))) => {
+            // property-level oracles (C14, C02, C04): in-place and overwrite only when asked for; every seed file
+            // given is used, in order, and nothing else; a given pin is a pin
+            let want_seeds: Vec<&String> = a.seeds.iter().filter(|s| *s != "-").collect();
+            let got_seeds: Vec<String> = o.seed_files.iter().map(|p| p.to_string_lossy().to_string()).collect();
+            if o.seed_output != a.seed_output || o.force_create != a.force || o.verify_output != a.verify_output {
+                h::emit_oracle_fail("clone-flags-differ-from-the-command-line", &req);
+            }
+            if got_seeds.len() != want_seeds.len() || got_seeds.iter().zip(want_seeds.iter()).any(|(g, w)| g != *w) || o.seed_stdin != a.seeds.iter().any(|s| s == "-") {
+                h::emit_oracle_fail("seed-list-differs-from-the-command-line", &req);
+            }
+            if a.pin.is_some() && o.header_checksum.is_none() {
+                h::emit_oracle_fail("verify-header-given-but-no-checksum-is-checked", &req);
+            }
+            let (place, retries, delay, timeout) = match &o.input_archive {
+                crate::clone_cmd::InputArchive::Local(_) => ("local", 0u64, 0u64, None),
+                crate::clone_cmd::InputArchive::Remote(r) => ("remote", r.retries as u64, r.retry_delay.as_secs(), r.receive_timeout.map(|d| d.as_secs())),
+            };
+            // the model reports the parsed numbers for local archives too (clap parses them either way)
+            let (retries, delay, timeout) = if place == "local" {
+                (
+                    a.retries.as_ref().and_then(|t| t.trim_start_matches('+').parse::<u64>().ok()).unwrap_or(0),
+                    a.delay.as_ref().and_then(|t| t.trim_start_matches('+').parse::<u64>().ok()).unwrap_or(0),
+                    a.timeout.as_ref().and_then(|t| t.trim_start_matches('+').parse::<u64>().ok()),
+                )
+            } else {
+                (retries, delay, timeout)
+            };
+            format!(
+                "ok {} pin={} out={} seeds={} stdin={} so={} force={} vo={} retries={} delay={} timeout={} buf={}",
+                place,
+                match &o.header_checksum {
+                    None => "none".to_string(),
+                    Some(hs) => if hs.slice().is_empty() { "e".to_string() } else { h::hex(hs.slice()) },
+                },
+                hx(&o.output.to_string_lossy()),
+                if got_seeds.is_empty() { "-".to_string() } else { h::join(&got_seeds.iter().map(|s| hx(s)).collect::<Vec<_>>(), ",") },
+                o.seed_stdin as u8,
+                o.seed_output as u8,
+                o.force_create as u8,
+                o.verify_output as u8,
+                retries,
+                delay,
+                show(timeout),
+                if a.buffered.is_some() { o.num_chunk_buffers.to_string() } else { "-".to_string() }
             )
         }
         Ok(Ok(_)) => "other".to_string(),
@@ -352,4 +468,104 @@ pub async fn opts(seed: u64, thorough: bool) {
         n += 1;
     }
     h::emit_stat("opts_compress_cases", n);
+    // 4. whole `bita clone` option sets: an existing local file, a missing absolute path, URLs, a relative
+    // name that does not exist; seeds in any number and order (the output's own name and `-` among them)
+    let existing = std::env::current_exe().map(|p| p.to_string_lossy().to_string()).unwrap_or("/proc/self/exe".into());
+    let full: String = (0..64).map(|i| format!("{:02x}", (i * 29 + 3) % 256)).collect();
+    let seed_names = ["a.img", "b.img", "out.img", "dir/c", "-", "a.img", ".", "x y", "é"];
+    let mut n = 0;
+    for i in 0..(if thorough { 6000 } else { 1500 }) {
+        let (archive, kind): (String, &'static str) = match r.below(6) {
+            0 | 1 => (existing.clone(), "existing"),
+            2 => ("/verif-no-such-dir/none.cba".into(), "missing-abs"),
+            3 => (r.pick(&["http://verif.invalid/a.cba", "https://h.example:8443/x/y.cba?q=1", "http://127.0.0.1:9/a"]).to_string(), "url"),
+            4 => ("http://verif.invalid/a.cba".into(), "url"),
+            _ => (r.pick(&["no-such-file.cba", "dir/none", "none"]).to_string(), "neither"),
+        };
+        let output = r.pick(&["out.img", "dir/out", "a.img", "/dev/null"]).to_string();
+        let nseeds = if r.chance(1, 3) { 0 } else { r.below(5) as usize };
+        let seeds: Vec<String> = (0..nseeds).map(|_| r.pick(&seed_names).to_string()).collect();
+        let num = |r: &mut Rng, p: u64| -> Option<String> {
+            if !r.chance(p, 10) {
+                return None;
+            }
+            Some(if i % 4 == 0 {
+                r.pick(&["0", "1", "3", "+2", "007", "4294967295", "4294967296", "18446744073709551615", "18446744073709551616", "-1", "x", "", "1.5"]).to_string()
+            } else {
+                r.pick(&["0", "1", "2", "5", "+4", "60"]).to_string()
+            })
+        };
+        let a = ClArgs {
+            pin: match r.below(6) {
+                0 => Some(full.clone()),
+                1 => Some(hex_text(&mut r)),
+                2 if i % 4 == 0 => Some(r.pick(&["", "zz", "0x00", "-ab"]).to_string()),
+                _ => None,
+            },
+            seeds,
+            retries: num(&mut r, 3),
+            delay: num(&mut r, 2),
+            timeout: num(&mut r, 2),
+            buffered: num(&mut r, 2),
+            seed_output: r.chance(1, 3),
+            force: r.chance(1, 3),
+            verify_output: r.chance(1, 3),
+            archive,
+            kind,
+            output,
+        };
+        clone_case(&a);
+        n += 1;
+    }
+    h::emit_stat("opts_clone_cases", n);
+    // 5. `--metadata-value KEY VALUE` with raw (possibly not UTF-8) arguments: refused, or handed on byte for byte
+    {
+        use std::ffi::OsString;
+        use std::os::unix::ffi::OsStringExt;
+        let pieces: Vec<Vec<u8>> = vec![
+            b"k".to_vec(), b"key two".to_vec(), b"".to_vec(), "Bj\u{f6}rn".as_bytes().to_vec(), vec![0x42, 0x6a, 0xf6, 0x72, 0x6e], vec![0xff],
+            vec![0xc3], vec![0xe2, 0x82], vec![0xed, 0xa0, 0x80], vec![0xf0, 0x9f, 0x98, 0x80], b"v=1".to_vec(), b"a,b:c".to_vec(),
+        ];
+        let mut n = 0;
+        for _ in 0..(if thorough { 1200 } else { 300 }) {
+            let npairs = r.range(1, 3) as usize;
+            let pairs: Vec<(Vec<u8>, Vec<u8>)> = (0..npairs)
+                .map(|_| {
+                    let k = if r.chance(5, 6) { r.pick(&pieces[..4]).clone() } else { r.pick(&pieces).clone() };
+                    let valid = [0usize, 1, 2, 3, 9, 10, 11];
+                    (k, if r.chance(3, 4) { pieces[*r.pick(&valid)].clone() } else { r.pick(&pieces).clone() })
+                })
+                .collect();
+            // a value that starts with `-` is not taken as a value by clap; none of the pieces does
+            let req = format!(
+                "opts-meta {}",
+                h::join(&pairs.iter().map(|(k, v)| format!("{}:{}", if k.is_empty() { "e".to_string() } else { h::hex(k) }, if v.is_empty() { "e".to_string() } else { h::hex(v) })).collect::<Vec<_>>(), ",")
+            );
+            let mut args: Vec<OsString> = vec!["bita".into(), "compress".into()];
+            for (k, v) in &pairs {
+                args.push("--metadata-value".into());
+                args.push(OsString::from_vec(k.clone()));
+                args.push(OsString::from_vec(v.clone()));
+            }
+            args.push("out.cba".into());
+            let ans = match h::catch(|| cli::parse_opts(args.clone())) {
+                Ok(Ok((cli::CommandOpts::Compress(o), _))) => {
+                    let got: Vec<(Vec<u8>, Vec<u8>)> = o.metadata_strings.iter().map(|(k, v)| (k.as_bytes().to_vec(), v.as_bytes().to_vec())).collect();
+                    if got != pairs {
+                        h::emit_oracle_fail("metadata-values-not-handed-on-verbatim", &req);
+                    }
+                    format!(
+                        "ok {}",
+                        h::join(&got.iter().map(|(k, v)| format!("{}:{}", if k.is_empty() { "e".to_string() } else { h::hex(k) }, if v.is_empty() { "e".to_string() } else { h::hex(v) })).collect::<Vec<_>>(), ",")
+                    )
+                }
+                Ok(Ok(_)) => "other".to_string(),
+                Ok(Err(_)) => "refused".to_string(),
+                Err(_) => "panic".to_string(),
+            };
+            h::emit_case(&req, &ans);
+            n += 1;
+        }
+        h::emit_stat("opts_metadata_cases", n);
+    }
 }
